@@ -15,10 +15,14 @@ E2 bounded enumeration on the real Material / Substance classes.
              (decimals, integer, unsigned / signed / upper-case exponents of unequal size, two trace values, bare trailing dot) x both normalisation modes x
              both isotope modes; oracle = closed formulas for float(spelling) + the same material given as a dict.
   history    E1 exploration of operation histories on LIVE composites: Substance CO2, Material by number and by mass
-             fractions (dictionary and string input) x every sequence of 1..2 (thorough 3) operations from
+             fractions (dictionary and string input; natural isotopes for the two dictionary materials, most abundant
+             ones for all) x every sequence of 1..2 (thorough 3) operations from
              {add(existing component, n), add(new component, n), + composite sharing a component (last / not last),
              + disjoint composite, + single component object (Material + Substance(..., proportion=p), Substance +
-             Element; existing / new), * k}, unpruned; operands of every non-mutating step and the live object are
+             Element; existing / new), * k, += composite, *= k}, unpruned, with table READS as part of the history:
+             between the steps data_composite() with a component selection and both `quantity` flags, and around
+             the final full read-out data_composite() for every selection of 1-2 of the first three components x
+             both flags (exactly the selected rows, x and X those of the whole composite); operands of every non-mutating step and the live object are
              re-read after bystander composites sharing its formulas have been constructed and checked; after the last step x and X must follow the closed formulas for the
              final amounts (reference: a dict) and equal those of a freshly constructed composite with these amounts.
 
@@ -87,13 +91,16 @@ HIST_OPS = {
     "Substance": [["add", "O", 2], ["add", "C", 1], ["add", "N", 1],
                   ["plus", [["C", 1], ["O", 1]]], ["plus", [["H", 2], ["O", 1]]], ["plus", [["N", 2]]],
                   ["mul", 2], ["mul", 0.5],
-                  ["pluscomp", "O", 2], ["pluscomp", "N", 1]],            # + Element('O', proportion=2), + Element('N')
+                  ["pluscomp", "O", 2], ["pluscomp", "N", 1],             # + Element('O', proportion=2), + Element('N')
+                  ["iadd", [["C", 1], ["O", 1]]], ["imul", 2]],           # s += Substance('CO'),  s *= 2
     "Material": [["add", "H2O", 0.5], ["add", "NaCl", 1], ["add", "KCl", 0.1],
                  ["plus", [["Ar", 0.5], ["NaCl", 2]]], ["plus", [["H2O", 1], ["O2", 1]]], ["plus", [["O2", 1]]],
                  ["mul", 2], ["mul", 0.5],
-                 ["pluscomp", "H2O", 2], ["pluscomp", "KCl", 2]],          # + Substance('KCl', proportion=2)
+                 ["pluscomp", "H2O", 2], ["pluscomp", "KCl", 2],           # + Substance('KCl', proportion=2)
+                 ["iadd", [["Ar", 0.5], ["NaCl", 2]]]],                    # m += material  (Material has no *=)
 }
 HDEPTH = dict(quick=2, thorough=3)
+HIST_NATURAL_TOO = ["material:number:dict", "material:mass:dict"]    # the other starts run with natural=False only
 BYSTANDERS = {    # composites constructed afresh after every history; they share formulas with the live objects
     "Substance": {"H2O": ("H2O", {"H": 2, "O": 1}), "O": ("O", {"O": 1}), "CO2": ("CO2", {"C": 1, "O": 2})},
     "Material": {"dict": ({"H2O": 1, "NaCl": 3}, {"H2O": 1, "NaCl": 3}),
@@ -275,6 +282,51 @@ def _component(cls, key, amount, natural):
     return Substance(key, proportion=amount, natural=natural)
 
 
+def _light_reads(obj):
+    """reads between the steps: a component selection and both `quantity` flags"""
+    ks = list(obj.components)
+    obj.data_composite(components=[ks[0]], quantity=False)
+    obj.data_composite(components=[ks[-1]], quantity=True)
+    obj.data_components(quantity=True)
+
+
+def _partial_reads(case, tags, obj, keys, amounts, mode, stage):
+    """data_composite() restricted to every subset of size 1-2 of the first three components, with both `quantity`
+    flags: the table holds exactly the selected rows (plus avg / sum) and their x, X are those of the whole
+    composite (documentation: "one can specify which elements should be returned")"""
+    o = outcome(obj.data_components, quantity=False)
+    if o[0] == "err":
+        return failure("reads", case, "data_components()", list(o), tags, "raises:" + o[1] + ":data_components")
+    try:
+        masses = [float(o[1][k].mass) for k in keys]
+    except Exception as e:
+        return failure("reads", case, "mass of every component", repr(e)[:200], tags, "row-missing:data_components")
+    ex, eX = _expected([amounts[k] for k in keys], masses, mode)
+    head = keys[:3]
+    subsets = [list(c) for n in (1, 2) for c in itertools.combinations(head, n)]
+    combos = [(sub, q) for sub in subsets for q in (False, True)]
+    if stage != "before-full-read":         # after the full read-out: the last selection of each size, one flag each
+        combos = [(subsets[len(head) - 1], True), (subsets[-1], False)]
+    for sub, q in combos:
+        t = tags + ["selection=%d" % len(sub), "quantity=%s" % q, "stage:" + stage]
+        o = outcome(obj.data_composite, components=list(sub), quantity=q)
+        if o[0] == "err":
+            return failure("reads", case, "partial table", list(o), t, "raises:" + o[1] + ":partial")
+        tab = o[1]
+        rows = [k for k in tab.keys() if k not in ("avg", "sum")]
+        if rows != sub:
+            return failure("reads", dict(case, selection=sub, quantity=q), sub, rows, t, "partial-table-wrong-rows")
+        for k in sub:
+            i = keys.index(k)
+            x, X = tab[k].x, tab[k].X
+            if q:
+                x, X = x.value("%"), X.value("%")
+            if not R.close(x, ex[i], 1e-10) or not R.close(X, eX[i], 1e-10):
+                return failure("reads", dict(case, selection=sub, quantity=q), dict(x=ex[i], X=eX[i]),
+                               dict(x=float(x), X=float(X)), t, "partial-table-wrong-values")
+    return None
+
+
 def check_history(start, natural, history):
     """apply the history to a live composite; its x and X must follow the closed formulas for the final amounts and
     equal those of a composite freshly constructed with the same amounts; afterwards the operands of every
@@ -292,13 +344,19 @@ def check_history(start, natural, history):
         obj = _make(cls, arg, mode, natural)
         return R.real_run(obj, history, lambda pairs: _make(cls, dict((k, v) for k, v in pairs), mode, natural),
                           cls == "Material", make_component=lambda k, a: _component(cls, k, a, natural),
-                          counts=amounts0, alive=alive)
+                          counts=amounts0, alive=alive, after_step=_light_reads)
     o = outcome(run)
     if o[0] == "err":
         return failure("history", case, "history executed", list(o), tags, "raises:" + o[1]), amounts
     final = o[1]
+    bad = _partial_reads(case, tags, final, keys, amounts, mode, "before-full-read")
+    if bad:
+        return bad, amounts
     got = _read(final, keys)
     bad = _compare("history", case, tags, keys, [amounts[k] for k in keys], mode, got)
+    if bad:
+        return bad, amounts
+    bad = _partial_reads(case, tags, final, keys, amounts, mode, "after-full-read")
     if bad:
         return bad, amounts
     for role, obj, c in alive:
@@ -367,6 +425,8 @@ def plan(tier, seed):
             shards.append(("string", k, first, wins))
     for start, (cls, _, _, _) in HIST_STARTS.items():
         for nat in (False, True):
+            if nat and start not in HIST_NATURAL_TOO:
+                continue
             for first in range(len(HIST_OPS[cls])):
                 shards.append(("history", start, nat, first, HDEPTH[tier]))
     return shards
@@ -508,7 +568,7 @@ def finish(total, tier, seed):
         if not h.get(key):
             raise HarnessError("vacuous run: no case under " + key)
     for key in ("add-existing", "add-new", "plus-shared", "plus-shared-last", "plus-disjoint", "mul",
-                "pluscomp-existing", "pluscomp-new"):
+                "pluscomp-existing", "pluscomp-new", "iadd", "imul"):
         if not h.get("history:last:" + key):
             raise HarnessError("vacuous run: no history ends with " + key)
     hstates = total.sets.get("hstates", set())
@@ -532,7 +592,8 @@ def finish(total, tier, seed):
         module_state_restored=h.get("module-state-restored", 0),
         history_bounds=dict(starts=sorted(HIST_STARTS), operations=HIST_OPS, depth=HDEPTH[tier],
                             bystanders={k: sorted(v) for k, v in BYSTANDERS.items()},
-                            isotope_modes=["natural", "abundant"], pruning="none (every history executed)"),
+                            isotope_modes=dict(abundant="all starts", natural=HIST_NATURAL_TOO),
+                            pruning="none (every history executed)"),
         window="all" if tier == "thorough" else "k<=2 complete + window %d of %d of k=3" % (seed % NWIN, NWIN),
         exhaustive=(tier == "thorough"),
         caps_hit=[] if tier == "thorough" else ["quick executes 1 of %d windows of the k=3 mixtures" % NWIN],
@@ -552,8 +613,9 @@ MANIFEST = dict(
          "20 of the 17^3) tuples of proportion spellings incl. signed, unsigned and upper-case exponents and trace "
          "values x modes, vs the "
          "closed formulas and the dictionary twin. Live composites: every history of <= 2 (thorough 3) operations "
-         "{add existing/new, + sharing/disjoint composite, + component object, * k} on 5 start objects x 2 isotope "
-         "modes, vs closed formulas and a freshly constructed composite, with re-read of operands and of the live "
+         "{add existing/new, + sharing/disjoint composite, + component object, * k, +=, *=, partial table "
+         "reads} on 5 start objects (most abundant isotopes; the two dictionary materials also with natural "
+         "ones), vs closed formulas and a freshly constructed composite, with re-read of operands and of the live "
          "object after fresh bystander composites sharing its formulas were built.",
     note="Trusted: the component masses reported by data_components() (property C10), float() as the meaning of a "
          "proportion spelling. Not covered: the avg row, proportions outside the alphabet, more than 3 components in "
